@@ -462,6 +462,23 @@ pub fn one(args: &Args) -> i32 {
         fault,
     };
     let job = Job { cfg: Cfg { backend, bits, level, mode }, io };
+    let fail = |why: &str| {
+        println!("verdict: Violated({why:?})");
+        println!("VIOLATION property={} replay={}", args.get("prop").unwrap_or("?"), args.get("replay-path").unwrap_or("-"));
+        1
+    };
+    // (1) unbalanced source: compare the create() result with the reference matcher
+    if let Err((not_opened, pos)) = spec::check_brackets(&code) {
+        let o = RunOpts { ceiling_s: 20, validate_bc: false, cover_bc: false, ..Default::default() };
+        let obs = run_case(&code, std::slice::from_ref(&job), &o);
+        let ob = &obs[0];
+        println!("reference: {} at char {pos}; observed: end={:?} state={} kind={} pos={}", if not_opened { "loop not opened" } else { "loop not closed" }, ob.end, ob.state, ob.aux[6], ob.aux[7]);
+        if backend == Backend::Inplace {
+            return if ob.end != engine::End::Normal || ob.state == sys::ST_PANICKED { fail("in-place interpreter crashed on an unbalanced string") } else { println!("verdict: Held"); 0 };
+        }
+        let wk = if not_opened { 2 } else { 1 };
+        return if ob.end != engine::End::Normal || ob.state != sys::ST_CREATE_ERR || ob.aux[6] != wk || ob.aux[7] != pos as u64 { fail("parser verdict differs from the reference matcher") } else { println!("verdict: Held"); 0 };
+    }
     let sp = spec::run(&code, &input, SpecOpts { bits, step_cap: args.get_u64("step-cap", 5_000_000), event_cap: EV_CAP, detect_cycles: true });
     let sp = match sp {
         Some(s) => s,
@@ -470,6 +487,47 @@ pub fn one(args: &Args) -> i32 {
             return 2;
         }
     };
+    // (2) allocation-failure replay
+    if let Some(k) = args.get("fail-at") {
+        let k: u64 = k.parse().unwrap_or(1);
+        let o = RunOpts { alloc_mode: alloc::FAIL, fail_at: k, ceiling_s: 20, rerun_on_timeout: false, validate_bc: false, cover_bc: false, ..Default::default() };
+        let obs = run_case(&code, std::slice::from_ref(&job), &o);
+        let ob = &obs[0];
+        println!("failing allocation {k}: end={:?} state={} events={}", ob.end, ob.state, spec::fmt_events(&ob.events, 32));
+        let prefix_ok = ob.events.len() <= sp.events.len() && ob.events[..] == sp.events[..ob.events.len()];
+        return match (&ob.end, ob.state) {
+            (engine::End::Crash(6), _) | (engine::End::Normal, sys::ST_PANICKED) if prefix_ok => {
+                println!("verdict: Held");
+                0
+            }
+            (engine::End::Normal, sys::ST_RETURNED) if sys::shared().scratch[14] == 0 => {
+                println!("verdict: Held (the failing request was not reached)");
+                0
+            }
+            _ => fail("did not end by the allocation-failure abort or a panic with a canonical prefix"),
+        };
+    }
+    // (3) provably diverging canonical run under plain execute: bounded-window observation
+    if let (Status::Cycle { events_before, events_per_period, .. }, Mode::Exec, None) = (sp.status, job.cfg.mode, job.io.fault) {
+        let window = args.get_u64("window-ms", 300);
+        let (returned, ob) = probe(&code, &job, window * 10);
+        println!("canonical: {:?}; window {} ms: returned={} end={:?} events={}", sp.status, window * 10, returned, ob.end, spec::fmt_events(&ob.events, 32));
+        let n = ob.events.len().min(sp.events.len());
+        if returned || ob.end != engine::End::Timeout {
+            return fail("returned / ended although the canonical run provably diverges");
+        }
+        if ob.events[..n] != sp.events[..n] {
+            return fail("events differ from the canonical ones");
+        }
+        if events_per_period == 0 && ob.n_events != sp.total_events {
+            return fail("event count differs from the canonical run before its silent cycle");
+        }
+        if events_per_period != 0 && ob.n_events <= events_before {
+            return fail("no event of the printing cycle was produced");
+        }
+        println!("verdict: Held");
+        return 0;
+    }
     let o = RunOpts { alloc_mode: args.get_u64("alloc-mode", 0) as u32, ceiling_s: args.get_u64("ceiling", 20) as u32, ..Default::default() };
     let obs = run_case(&code, std::slice::from_ref(&job), &o);
     let v = judge(&job, &sp, &obs[0]);
